@@ -35,8 +35,46 @@ func VH_C13_ArrayIterators() {
 	addr := vhAddr(1)
 	a, model := vhBuildArray(storage, addr, vhArrayShape())
 	n := len(model)
-	flavour := vhChoose("flavour", 8)
+	flavour := vhChoose("flavour", 9)
 	switch flavour {
+	case 8: // the iterator OBJECTS driven directly
+		var next func() (Value, error)
+		kind := vhChoose("itkind", 4)
+		want := model
+		switch kind {
+		case 0:
+			it, err := a.Iterator()
+			vhAssert(err == nil && (n == 0 || it.CanMutate()), "mutable iterator object")
+			next = it.Next
+		case 1:
+			it, err := a.ReadOnlyIterator()
+			vhAssert(err == nil && !it.CanMutate(), "read-only iterator object")
+			next = it.Next
+		case 2:
+			it, err := a.ReadOnlyLoadedValueIterator()
+			vhAssert(err == nil && !it.CanMutate(), "loaded-value iterator object")
+			next = it.Next
+		case 3:
+			s := vhChoose("start", n+1)
+			e := s + vhChoose("len", n-s+1)
+			it, err := a.ReadOnlyRangeIterator(uint64(s), uint64(e))
+			vhAssert(err == nil, "range iterator object")
+			if err != nil {
+				return
+			}
+			next = it.Next
+			want = model[s:e]
+		}
+		var got []uint64
+		for {
+			v, err := next()
+			vhAssert(err == nil, "iterator step: no error")
+			if err != nil || v == nil {
+				break
+			}
+			got = append(got, vhTagOf(v))
+		}
+		vhSameSeq(got, want, "iterator object")
 	case 7: // invalid ranges (ANY 64-bit bounds) are rejected by every range flavour, valid ones accepted
 		s64, e64 := vhU64("start"), vhU64("end")
 		valid := vhAll(s64 <= e64, e64 <= uint64(n))
@@ -172,8 +210,56 @@ func VH_C13_MapIterators() {
 		wantK = append(wantK, kv.key.id)
 		wantV = append(wantV, kv.val)
 	}
-	flavour := vhChoose("flavour", 8)
+	flavour := vhChoose("flavour", 9)
 	switch flavour {
+	case 8: // the iterator OBJECTS driven directly: Next / NextKey / NextValue of every kind
+		var it MapIterator
+		var ierr error
+		kind := vhChoose("itkind", 3)
+		switch kind {
+		case 0:
+			it, ierr = m.Iterator(vhCompare, vhHip)
+		case 1:
+			it, ierr = m.ReadOnlyIterator()
+		case 2:
+			it, ierr = m.ReadOnlyLoadedValueIterator()
+		}
+		vhAssert(ierr == nil, "iterator object")
+		if ierr != nil {
+			return
+		}
+		vhAssert(it.CanMutate() == (kind == 0), "CanMutate tells the mutable iterator apart")
+		var gotK, gotV []uint64
+		step := vhChoose("step", 3)
+		for {
+			var k, v Value
+			var nerr error
+			switch step {
+			case 0:
+				k, v, nerr = it.Next()
+			case 1:
+				k, nerr = it.NextKey()
+			case 2:
+				v, nerr = it.NextValue()
+			}
+			vhAssert(nerr == nil, "iterator step: no error")
+			if nerr != nil || (k == nil && v == nil) {
+				break
+			}
+			if k != nil {
+				kk, _ := k.(vKey)
+				gotK = append(gotK, kk.id)
+			}
+			if v != nil {
+				gotV = append(gotV, vhTagOf(v))
+			}
+		}
+		if step != 2 {
+			vhSameSeq(gotK, wantK, "iterator object: keys")
+		}
+		if step != 1 {
+			vhSameSeq(gotV, wantV, "iterator object: values")
+		}
 	case 0:
 		k, v := vhCollectMap("mutable", func(fn MapEntryIterationFunc) error { return m.Iterate(vhCompare, vhHip, fn) })
 		vhSameSeq(k, wantK, "mutable keys")
@@ -320,7 +406,18 @@ func VH_C13_NestedIteration() {
 		return true, nil
 	}
 	var err error
-	if readOnly {
+	callbacks := 0
+	if readOnly && vhChoose("withcallback", 2) == 1 {
+		// the documented mutation callback is invoked for every rejected attempt
+		err = parent.IterateReadOnlyWithMutationCallback(visit, func(Value) { callbacks++ })
+		nchildMutated := 0
+		for k := range kinds {
+			if kinds[k] && (k == mutateAt || mutateAt == len(kinds)) {
+				nchildMutated++
+			}
+		}
+		vhAssert(callbacks == 2*nchildMutated, "mutation callback invoked once per rejected attempt")
+	} else if readOnly {
 		err = parent.IterateReadOnly(visit)
 	} else {
 		err = parent.Iterate(visit)
